@@ -32,6 +32,13 @@ Definition lookup_infl (tbl : list (bytes * option bytes)) (d : bytes) : option 
   | None => None
   end.
 
+(* compress/flate, streaming: output produced from a prefix of a compressed message (driver's table) *)
+Definition avail_of (tbl : list (bytes * N)) (d : bytes) : N :=
+  match find (fun kv => beqb (fst kv) d) tbl with
+  | Some (_, v) => v
+  | None => 0
+  end.
+
 Definition rerr_eqb (a b : rerr) : bool :=
   match a, b with
   | EEof, EEof | EProto, EProto | EReadLimit, EReadLimit | EBufferFull, EBufferFull | EInflate, EInflate
@@ -55,7 +62,7 @@ Fixpoint events_eqb (a b : list event) : bool :=
   | _, _ => false
   end.
 
-Definition scfg_of (cfg : rcfg) : scfg := mkScfg (rc_server cfg) (rc_compress cfg) (rc_limit cfg) (rc_dlimit cfg).
+Definition scfg_of (cfg : rcfg) : scfg := mkScfg (rc_server cfg) (rc_compress cfg) (rc_limit cfg) (rc_dlimit cfg) (rc_avail cfg).
 
 (* status codes a conforming reader accepts: RFC 6455 7.4; 1012-1014 implementation defined = what the source's table says *)
 Definition spec_close_ok (c : N) : bool :=
@@ -75,7 +82,7 @@ Definition model_read (cfg : rcfg) (c : case) : list event :=
   read_all cfg (lookup_infl (c_infl c)) (c_bs c).
 
 Definition with_rbuf (cfg : rcfg) (n : N) : rcfg :=
-  mkRcfg (rc_server cfg) (rc_compress cfg) (rc_limit cfg) (rc_dlimit cfg) n (rc_close1_strict cfg).
+  mkRcfg (rc_server cfg) (rc_compress cfg) (rc_limit cfg) (rc_dlimit cfg) n (rc_close1_strict cfg) (rc_avail cfg).
 
 Definition label_of (c : case) : N :=
   if (rc_rbuf (c_cfg c) <? 125)
